@@ -8,6 +8,12 @@
 (* position (the nonce binds the index, the tag binds content and length).      *)
 (* The reader: opening needs the index, found from the END of the decrypted     *)
 (* stream; reading a cell needs the chunk that holds it to verify.              *)
+(* TIME of the alteration: the statement quantifies over alterations, not over   *)
+(* when they happen.  Every behaviour of this model is replayed twice: on a       *)
+(* reader opened on the altered bytes, and on a reader opened on the INTACT        *)
+(* archive, which has read every file once before the same edits are applied to     *)
+(* its storage (a share, a file being rewritten) - what it has authenticated or      *)
+(* cached before then gives no licence to return an altered byte afterwards.         *)
 (* `Adversarial`: a file's content may itself contain cells that parse as an    *)
 (* end marker + index (format-level finding D12).                               *)
 EXTENDS Integers, Sequences, FiniteSets, TLC
